@@ -90,6 +90,8 @@ Next == Dispatch \/ (\E s \in Spans : WorkerDone(s)) \/ MapReturns \/ Release \/
 Spec == Init /\ [][Next]_vars /\ WF_vars(Next)
 
 NoWriteWhileReading == ~(writing /\ reading # {})
+EveryChunkWrittenOnce == pc = "finished" => written = Spans
+Terminates == <>(pc = "finished")
 
 \* ---------------------------------------------------------------------------------------------
 \* An INDUCTIVE invariant of the design as implemented (blocking map, release before yield), discharged by Apalache for
